@@ -25,6 +25,8 @@ import Gama.Lemmas.MatVecKernels
 import Gama.Lemmas.MatVecValues
 import Gama.Lemmas.MatVecKernels2
 import Gama.Lemmas.MatVecValues2
+import Gama.Lemmas.MatVecKernels3
+import Gama.Lemmas.MatVecValues3
 namespace Gama.Props.C15
 open Gama Gama.MatVec Gama.Gen Matrix
 
@@ -213,5 +215,43 @@ example : MV.baseAdd (#[1, 2] : Array Int) #[10, 20] #[7, 7] = .ok #[11, 22]
     ∧ MV.baseMul (#[1, 2] : Array Int) 3 #[7, 7] = .ok #[3, 6]
     ∧ MV.baseScale (#[1, 2] : Array Int) 3 = .ok #[3, 6]
     ∧ MV.baseAdd (#[1, 2] : Array Int) #[10, 20] #[7] = .error .badRank := by decide
+
+/-! ## Round 12: `Mat·SymMat` (packed-triangle walk) and the accessor variants -/
+
+/-- **source tie of `operator*(const Mat&, const SymMat&)`**: the regenerated loop (base-1 pointer `b = B.begin()-1`,
+    `b[++l]` along row `j` of the packed triangle, then `l += k` down column `j`, two inner loops accumulating into one
+    `sum`, early return for `n == 0`) EQUALS the executed hand model `matMulSym` (offsets `symWalk j k - 1`), all operands -/
+theorem C15_mat_symmat_source_tie {K : Type} [Add K] [Mul K] [Zero K] (A : Mat K) (B : SMat K) :
+    MV.matMulSym A B = matMulSym A B := gen_matMulSym A B
+
+/-- **Mat·SymMat**: `A · Square(B)` — the Mathlib product with the full symmetric matrix the packed triangle denotes
+    (`SMat.toMatrix`, symmetric: `toMatrix_symm`); all dimensions, any semiring -/
+theorem C15_mat_symmat_value {K : Type} [Semiring K] (A : Mat K) (B : SMat K) (hA : A.WF) (hB : B.WF)
+    (hc : A.cols = B.dim) (d : K) :
+    (∃ C, MV.matMulSym A B = .ok C ∧ C.rows = A.rows ∧ C.cols = A.cols ∧ C.WF ∧
+      C.toMatrix d A.rows A.cols = A.toMatrix d A.rows A.cols * B.toMatrix d A.cols)
+    ∧ (B.toMatrix d A.cols)ᵀ = B.toMatrix d A.cols := by
+  refine ⟨?_, SMat.toMatrix_symm B d A.cols⟩
+  rw [gen_matMulSym]; exact matMulSym_toMatrix A B hA hB hc d
+
+/-- **the accessor variants**: on the `MatBase` view of a `Mat` / `TransMat` the regenerated generic loops
+    (`operator*(MatBase,Vec)`, `operator*(TransVec,MatBase)`) return what the regenerated pointer loops return — so
+    `C15_mat_vec_value`, `C15_transmat_vec_value`, `C15_transvec_mat_value` are their value theorems too
+    (this is also what `SymMat·Mat`, `SymMat·Vec` go through: `operator*(MatBase,MatBase)`, `operator*(MatBase,Vec)`) -/
+theorem C15_accessor_variants_value {K : Type} [Add K] [Mul K] [Zero K] (A : Mat K) (T : TMat K) (b : Vec K) :
+    MV.mbMulVec A.mb b = MV.matMulVec A b
+    ∧ MV.mbMulVec T.mb b = MV.tMulVec T b
+    ∧ MV.tvecMulMB b A.mb = MV.tvecMulMat b A := by
+  refine ⟨?_, ?_, ?_⟩
+  · rw [gen_mbMulVec, gen_matMulVec, mbMulVec_mat]
+  · rw [gen_mbMulVec, gen_tMulVec, mbMulVec_tmat]
+  · rw [gen_tvecMulMB, gen_tvecMulMat, tvecMulMB_mat]
+
+/-- `[[1,2],[3,4]] · Sym[[1,2],[2,3]] = [[5,8],[11,18]]` on the regenerated loop; `n = 0` returns the empty `m×0`;
+    WF operands, conforming -/
+example : MV.matMulSym (⟨2, 2, #[1, 2, 3, 4]⟩ : Mat Int) ⟨2, #[1, 2, 3]⟩ = .ok ⟨2, 2, #[5, 8, 11, 18]⟩
+    ∧ MV.matMulSym (⟨3, 0, #[]⟩ : Mat Int) ⟨0, #[]⟩ = .ok ⟨3, 0, #[]⟩
+    ∧ MV.matMulSym (⟨1, 3, #[1, 1, 1]⟩ : Mat Int) ⟨3, #[1, 2, 3, 4, 5, 6]⟩ = .ok ⟨1, 3, #[7, 10, 15]⟩
+    ∧ MV.matMulSym (⟨2, 2, #[1, 2, 3, 4]⟩ : Mat Int) ⟨3, #[1, 2, 3, 4, 5, 6]⟩ = .error .badRank := by decide
 
 end Gama.Props.C15
